@@ -335,7 +335,7 @@ def run_creation(case: dict, root: str, *, sim_kwargs: dict | None = None, trace
     gen_args = None
     if src_kind in ("df", "traced"):
         df = wl.make_dataframe(rec_f, pids_f)
-        source = wl.TracedFrame(df, trace) if src_kind == "traced" else df
+        source = wl.TracedFrame(df, trace, fail_at=int(fault["k"]) if kind == "source_memerror" else None) if src_kind == "traced" else df
     elif src_kind in ("fits", "hdf5", "parquet"):
         source = os.path.join(root, "input" + wl.SOURCE_EXT[src_kind])
         fits_hdu = int(case.get("fits_hdu") or 1) if src_kind == "fits" else 1
@@ -477,7 +477,7 @@ def run_creation(case: dict, root: str, *, sim_kwargs: dict | None = None, trace
         coords_object=coords if not p.get("centers_from_catalog") else None,
         gen_args=gen_args,
         races=sim.file_races(),
-        fault_fired=dict(sim.faults.get("_fired", {})),
+        fault_fired=dict(sim.faults.get("_fired", {}), **({"source_memerror": source.failed} if isinstance(source, wl.TracedFrame) and source.failed else {})),
         degenerate_centres=seeded_tc.degenerate,
         process_errors=[type(e).__name__ for e in sim.objects.get("process_errors", [])],
         main_done=sim.main.done,
